@@ -463,3 +463,52 @@ def run_extra(repo: Repo, rep: Report) -> None:
                 rep.ob("C11.g-no-shared-operand-mutation", paths, "%s.%s" % (cname, mname), m, not foreign,
                        "self.%s is a list created by this object" % attr if not foreign else
                        "self.%s may be the operand's own list (%s) and is then mutated in place" % (attr, norm(foreign[0])), node=m)
+
+
+_run_base = run
+
+
+def run(repo: Repo, rep: Report) -> None:  # noqa: F811
+    _run_base(repo, rep)
+    # ------------------------------------------------------------------ (i)
+    rep.rule("C11.i-path-grammar-nodes-are-translated",
+             "every Comp node the SPARQL path grammar can produce (parser.py: Comp names containing `Path`) has an arm `p.name == <name>` in algebra.translatePath, so no "
+             "untranslated parse node is ever handed to a path evaluator (table-listed exceptions: syntax that is not SPARQL 1.1)", floor=5)
+    pm = repo.mod("rdflib.plugins.sparql.parser")
+    am = repo.mod("rdflib.plugins.sparql.algebra")
+    NOT_SPARQL11 = {"DistinctPath": "DISTINCT(path) was dropped from the SPARQL 1.1 grammar; it parses but is not part of the property"}
+    names = {}
+    for c in ast.walk(pm.tree):
+        if isinstance(c, ast.Call) and norm(c.func) == "Comp" and c.args and isinstance(c.args[0], ast.Constant) and isinstance(c.args[0].value, str) and "Path" in c.args[0].value:
+            names.setdefault(c.args[0].value, c)
+    tp = [f for q, f in am.functions() if q == "translatePath"]
+    if not tp:
+        raise AnalysisError("translatePath vanished")
+    arms = {n.comparators[0].value for f in tp for n in ast.walk(f) if isinstance(n, ast.Compare) and norm(n.left).endswith(".name") and isinstance(n.comparators[0], ast.Constant)}
+    for nm, c in sorted(names.items()):
+        if nm in NOT_SPARQL11:
+            continue
+        ok = nm in arms
+        rep.ob("C11.i-path-grammar-nodes-are-translated", pm, "<path grammar>", "Comp(%r)" % nm, ok,
+               "translated by translatePath" if ok else
+               "the grammar produces %s nodes but translatePath has no arm for them: the parse node itself ends up as a member of the path object and evaluation raises (`?x !(^:p) ?y` is valid SPARQL)" % nm, node=c)
+
+    # ------------------------------------------------------------------ (j)
+    rep.rule("C11.j-negated-set-inverse-members-reversed",
+             "NegatedPath accepts inverse members (^iri); !(…|^q|…) contains the REVERSED edges whose predicate is none of the q, so NegatedPath.eval enumerates "
+             "graph.triples with its two ends swapped for that part, and the forward enumeration is present too", floor=2)
+    paths = repo.mod("rdflib.paths")
+    init = paths.func("NegatedPath.__init__")
+    accepts_inv = any(isinstance(n, ast.Name) and n.id == "InvPath" for n in ast.walk(init))
+    ev = paths.func("NegatedPath.eval")
+    a = [x.arg for x in ev.args.args]
+    subj, obj = a[2], a[3]
+    pats = [norm(c.args[0]) for c in own_nodes(ev) if isinstance(c, ast.Call) and isinstance(c.func, ast.Attribute) and c.func.attr == "triples" and c.args]
+    fwd = "(%s, None, %s)" % (subj, obj) in pats
+    rev = "(%s, None, %s)" % (obj, subj) in pats
+    rep.ob("C11.j-negated-set-inverse-members-reversed", paths, "NegatedPath.eval", "forward edges enumerated: graph.triples((%s, None, %s))" % (subj, obj), fwd,
+           "" if fwd else "no forward enumeration found", node=ev)
+    if accepts_inv:
+        rep.ob("C11.j-negated-set-inverse-members-reversed", paths, "NegatedPath.eval", "reversed edges enumerated: graph.triples((%s, None, %s))" % (obj, subj), rev,
+               "" if rev else "inverse members are accepted by __init__ but eval never enumerates edges in the reverse direction: !(^q) yields forward edges (filtered by an unrelated "
+               "existence test) instead of the pairs (x, y) with y --not q--> x", node=ev)
